@@ -109,7 +109,10 @@ class WindowMachine:
         return complete, released, ("complete" if complete else "cut"), switched
 
     def key(self):
-        return (tuple(self.open), self.best, self.window, self.switches)
+        # the machine's future depends on the open window only through its size, step total and
+        # smallest return (every return of an open window is >= best, else it had been cut)
+        o = self.open
+        return (len(o), sum(n for n, _ in o), min((r for _, r in o), default=None), self.best, self.window, self.switches)
 
 
 # -- function part (E1) -------------------------------------------------------------------------
@@ -326,3 +329,258 @@ def deviations(base, alphabet, max_dev):
                     s[p] = ch
                 out.append("".join(s))
     return out
+
+
+LEVEL_PATTERNS = {
+    # reward of global step t is level*100 + t, so episode returns rise and fall with the levels
+    "flat": "0000000000",
+    "fall": "9988776655",
+    "zigzag": "0090009000",
+    "rise-fall": "0123454321",
+}
+# run configurations: (long window, threshold, reset weight, target_delay, policy_delay)
+LOOP_CONFIGS = {
+    "A": dict(win=2, thr=3, w=0.5, target_delay=2, policy_delay=2),
+    "B": dict(win=3, thr=1, w=1.0, target_delay=3, policy_delay=1),
+    "C": dict(win=2, thr=NEVER, w=0.9, target_delay=2, policy_delay=1),
+}
+
+
+def loop_scripts(tier):
+    """Deviation-bounded scripts: around the all-continue default (DESIGN) and around two episode-dense
+    bases, so that several assessment windows fit into the horizon."""
+    dev = 1 if tier == "quick" else 2
+    out = []
+    for base in ("c" * T, "cT" * (T // 2), "T" * T):
+        for s in deviations(base, "cTU", dev):
+            if s not in out:
+                out.append(s)
+    return out
+
+
+def loop_items(tier, seed):
+    out = []
+    scripts_ = loop_scripts(tier)
+    if tier == "quick":
+        plan = [("A", "fall")]
+    else:
+        plan = [("A", "fall"), ("A", "rise-fall"), ("A", "flat"), ("B", "rise-fall"), ("B", "fall"), ("C", "zigzag")]
+    for cfg, pat in plan:
+        for s in scripts_:
+            out.append(dict(name=f"loop-{cfg}-{pat}-{s}", part="loop", cfg=cfg, pattern=pat, script=s, seed=seed))
+    return out
+
+
+def predict(env_steps, cfg):
+    """Feed the environment's own log to the window machine.
+
+    env_steps: [(reward, ended)] per executed step.  -> per step: dict(released, checkpoint, kind)"""
+    ref = WindowMachine(cfg["win"], cfg["thr"], cfg["w"])
+    out = []
+    length, ret, its = 0, 0.0, 0
+    for t, (r, ended) in enumerate(env_steps):
+        length += 1
+        ret += r
+        p = dict(released=0, checkpoint=False, kind=None, switched=False, length=length, ret=ret)
+        if ended:
+            if t >= WARMUP:
+                ck, rel, kind, sw = ref.episode(length, ret, its)
+                its += rel
+                p.update(released=rel, checkpoint=ck, kind=kind, switched=sw, window=ref.window)
+            else:
+                p.update(kind="warmup-episode")
+            length, ret = 0, 0.0
+        out.append(p)
+    return out
+
+
+def make_logger():
+    from rl_blox.logging.logger import LoggerBase
+
+    class Rec(LoggerBase):
+        """Records the order of everything train_td7 reports; snapshots checkpoint modules."""
+
+        def __init__(self):
+            self.events = []  # ("env", t) | ("stat", key, value, step) | ("epoch", key, step)
+            self.mods = {}
+            self.on_epoch = None
+
+        def start_new_episode(self):
+            pass
+
+        def stop_episode(self, total_steps):
+            pass
+
+        def define_experiment(self, env_name=None, algorithm_name=None, hparams=None):
+            pass
+
+        def record_stat(self, key, value, episode=None, step=None, t=None, verbose=None, format_str="{0:.3f}"):
+            self.events.append(("stat", key, value, step))
+
+        def record_epoch(self, key, value, episode=None, step=None, t=None):
+            self.mods[key] = value
+            self.events.append(("epoch", key, step))
+            if self.on_epoch is not None:
+                self.on_epoch(key, value)
+
+    return Rec()
+
+
+def l_work(item, col):
+    import jax
+    from rl_blox.algorithm.td7 import create_td7_state, train_td7
+
+    from vlib.snap import snap
+
+    cfg = LOOP_CONFIGS[item["cfg"]]
+    script, levels = item["script"], LEVEL_PATTERNS[item["pattern"]]
+    seed = int(item["seed"])
+    env = ScriptEnv(script, levels=levels, horizon=T + 2)
+    st = create_td7_state(
+        env, n_embedding_dimensions=3, state_embedding_hidden_nodes=[3], state_action_embedding_hidden_nodes=[3],
+        policy_sa_encoding_nodes=3, policy_hidden_nodes=[3], q_sa_encoding_nodes=3, q_hidden_nodes=[3], seed=seed,
+    )
+    lg = make_logger()
+    init_actor, init_emb = snap(st.actor), snap(st.embedding)
+    acting = {}  # t -> snapshots of the acting policy at the top of env step t
+    ckpt_now = dict(actor=init_actor, emb=init_emb)  # what the checkpoint must currently hold
+    seen_ckpt = {}  # key -> module object handed to the logger
+    problems = []
+
+    def acting_snap():
+        jax.effects_barrier()
+        a = snap(st.actor)
+        # the acting embedding is an internal clone; the logger sees it at its first hard update,
+        # before that it is the initial embedding
+        e = snap(lg.mods["fixed_embedding"]) if "fixed_embedding" in lg.mods else init_emb
+        return a, e
+
+    def check_drift(where):
+        for key, name in (("actor_checkpoint", "actor"), ("fixed_embedding_checkpoint", "emb")):
+            if key in seen_ckpt and snap(seen_ckpt[key]) != ckpt_now[name]:
+                problems.append((K_DRIFT, dict(where=where, module=key)))
+
+    def on_step(e):
+        lg.events.append(("env", e.t))
+        acting[e.t] = acting_snap()
+        check_drift(f"before env step {e.t}")
+
+    def on_epoch(key, value):
+        if key in ("actor_checkpoint", "fixed_embedding_checkpoint"):
+            a, e = acting_snap()
+            want = a if key == "actor_checkpoint" else e
+            name = "actor" if key == "actor_checkpoint" else "emb"
+            seen_ckpt[key] = value
+            ckpt_now[name] = snap(value)
+            col.tick(1)
+            col.outcome("l_checkpoint_contents_compared")
+            if ckpt_now[name] != want:
+                problems.append((K_CONTENT, dict(module=key, at_env_step=env.t - 1)))
+            if want != (init_actor if name == "actor" else init_emb):
+                col.outcome("l_checkpoints_of_a_trained_policy")
+
+    env.on_step = on_step
+    lg.on_epoch = on_epoch
+    detail0 = dict(script=script, levels=levels, config=cfg, warmup=WARMUP, horizon=T, seed=seed)
+    try:
+        res = train_td7(
+            env, st.embedding, st.embedding_optimizer, st.actor, st.actor_optimizer, st.critic, st.critic_optimizer,
+            seed=seed, total_timesteps=T, buffer_size=16, batch_size=2, learning_starts=WARMUP,
+            target_delay=cfg["target_delay"], policy_delay=cfg["policy_delay"], use_checkpoints=True,
+            max_episodes_when_checkpointing=cfg["win"], steps_before_checkpointing=cfg["thr"],
+            reset_weight=cfg["w"], progress_bar=False, logger=lg,
+        )
+    except Exception as e:  # the routine is defined for every episode history
+        col.tick(1)
+        col.violation(SIG.format(L_ENTRY, K_RAISED), dict(detail0, error=f"{type(e).__name__}: {e}"[:300]))
+        return
+    check_drift("after the run")
+
+    # ground truth from the environment's log, prediction from the window machine
+    steps = [(e[3], bool(e[4] or e[5])) for e in env.log if e[0] == "step"]
+    pred = predict(steps, cfg)
+    # observed: critic updates and checkpoint copies between consecutive environment steps
+    upd = [0] * len(steps)
+    copies = [0] * len(steps)
+    cur = -1
+    for ev in lg.events:
+        if ev[0] == "env":
+            cur += 1
+        elif ev[0] == "stat" and ev[1] == "q loss":
+            upd[cur] += 1
+        elif ev[0] == "epoch" and ev[1] == "actor_checkpoint":
+            copies[cur] += 1
+    assert cur == len(steps) - 1
+    name = (item["cfg"], item["pattern"], script)
+    for t, p in enumerate(pred):
+        assessed = p["kind"] in ("open", "cut", "complete")
+        col.tick(1, ("l", name, t) if assessed else None)
+        d = dict(detail0, env_step=t, predicted=p, critic_updates=upd[t], checkpoint_copies=copies[t],
+                 per_step_updates=upd, per_step_predicted=[q["released"] for q in pred])
+        if upd[t] != p["released"]:
+            col.violation(SIG.format(L_ENTRY, K_UPDATES), d)
+        if copies[t] and not p["checkpoint"]:
+            col.violation(SIG.format(L_ENTRY, K_EV_BAD), d)
+        if p["checkpoint"] and not copies[t]:
+            col.violation(SIG.format(L_ENTRY, K_EV_MISS), d)
+        if p["kind"] == "complete":
+            col.outcome("l_windows_completed_with_checkpoint")
+            if p["released"] != p["length"]:
+                col.outcome("l_complete_windows_of_several_episodes")
+        elif p["kind"] == "cut":
+            col.outcome("l_windows_cut_short")
+            if p["released"] != p["length"]:
+                col.outcome("l_cuts_after_earlier_episodes_in_window")
+        elif p["kind"] == "open":
+            col.outcome("l_window_stays_open")
+        elif p["kind"] == "warmup-episode":
+            col.outcome("l_episodes_ended_in_warmup")
+        if p["switched"]:
+            col.outcome("l_switches_to_long_window")
+        if assessed and p["released"] and t - p["released"] + 1 < WARMUP:
+            col.outcome("l_windows_including_warmup_steps")
+    col.outcome("l_runs")
+    col.outcome("l_critic_updates_observed", sum(upd))
+    if sum(p["released"] for p in pred) < sum(1 for t in range(len(steps)) if t >= WARMUP):
+        col.outcome("l_runs_ending_with_an_open_window")
+    # the returned evaluation policy is the last checkpoint (initial policy if none was made)
+    col.tick(1)
+    last = [t for t, p in enumerate(pred) if p["checkpoint"]]
+    # acting policy at the window end = policy at the top of the step that ended the window
+    want_actor = acting[last[-1]][0] if last else init_actor
+    want_emb = acting[last[-1]][1] if last else init_emb
+    jax.effects_barrier()
+    if snap(res.actor) != want_actor or snap(res.fixed_embedding) != want_emb:
+        problems.append((K_RESULT, dict(last_predicted_checkpoint_step=last[-1] if last else None)))
+    if last and want_actor != init_actor:
+        col.outcome("l_runs_returning_a_trained_checkpoint")
+    if snap(res.actor) != snap(st.actor):
+        col.outcome("l_runs_where_returned_checkpoint_differs_from_final_actor")
+    for kind, d in problems:
+        col.violation(SIG.format(L_ENTRY, kind), dict(detail0, **d, per_step_updates=upd,
+                                                     per_step_predicted=[q["released"] for q in pred]))
+    if any(p["kind"] == "cut" and p["released"] != p["length"] for p in pred) or script == "cT" * (T // 2):
+        col.sample(dict(part="loop", script=script, levels=levels, config=item["cfg"], critic_updates_per_step=upd,
+                        checkpoint_copies_per_step=copies,
+                        episode_returns=[p["ret"] for p in pred if p["kind"]]))
+
+
+# -- enumeration --------------------------------------------------------------------------------
+
+
+def items(tier, seed):
+    out = []
+    depth = 24
+    for win, thr, ws, starts in f_configs(tier):
+        out.append(dict(name=f"function-w{win}-t{thr}", part="function", tier=tier, win=win, thr=thr,
+                        weights=ws, starts=starts, max_depth=depth))
+    # the expensive searches first so that the pool balances
+    out.sort(key=lambda i: -(i["win"] * (0 if i["thr"] in (0, NEVER) else 1)))
+    return loop_items(tier, seed) + out
+
+
+def work(item, col):
+    if item["part"] == "function":
+        f_work(item, col)
+    else:
+        l_work(item, col)
